@@ -265,10 +265,7 @@ class BaseParser:
                     continue
                 raise
         if resolved:
-            for field in self.fields.values():
-                field.resolve_forward_refs()
-            # resolve for types
-            self.addition_type, r = resolve_forward_type(self.addition_type)
+            self.resolve_forward_types()
         if self.is_local:
             # ForwardRef in local vars is not cachable
             # where typing is using a lru_cache
@@ -281,6 +278,14 @@ class BaseParser:
         for name in resolved_names:
             self.forward_refs.pop(name, None)
         return resolved
+
+    def resolve_forward_types(self):
+        # replace the resolved references in the types this parser holds
+        # (while they are still evaluated: the refs of a local object are cleared afterwards)
+        for field in self.fields.values():
+            field.resolve_forward_refs()
+        # resolve for types
+        self.addition_type, r = resolve_forward_type(self.addition_type)
 
     @classmethod
     def validate_field_name(cls, name: str):
